@@ -201,6 +201,25 @@ static ADMITTED: AtomicU32 = AtomicU32::new(0);
 static REJECTED: AtomicU32 = AtomicU32::new(0);
 static ODD: AtomicU32 = AtomicU32::new(0);
 
+#[inline(never)]
+pub unsafe fn cc_unsafe(x: u32) -> u32 {
+    std::hint::black_box(x).wrapping_add(20)
+}
+#[inline(never)]
+pub fn cc_unit(x: u32) {
+    std::hint::black_box(x);
+}
+
+/// the same budget through other arms of the macro (arm 1: unsafe fn returns+times, arm 2: unit fn times only)
+fn install_times_arm(injector: &mut InjectorPP, arm: usize, n: usize) {
+    match (arm, n) {
+        (1, 1) => injector.when_called(inj::func!(unsafe{} fn(cc_unsafe)(u32) -> u32)).will_execute(inj::fake!(func_type: unsafe fn(x: u32) -> u32, returns: 0xFA, times: 1)),
+        (1, _) => injector.when_called(inj::func!(unsafe{} fn(cc_unsafe)(u32) -> u32)).will_execute(inj::fake!(func_type: unsafe fn(x: u32) -> u32, returns: 0xFA, times: 2)),
+        (_, 1) => injector.when_called(inj::func!(fn(cc_unit)(u32))).will_execute(inj::fake!(func_type: fn(x: u32) -> (), times: 1)),
+        _ => injector.when_called(inj::func!(fn(cc_unit)(u32))).will_execute(inj::fake!(func_type: fn(x: u32) -> (), times: 2)),
+    }
+}
+
 fn install_times(injector: &mut InjectorPP, n: usize) {
     match n {
         0 => injector.when_called(inj::func!(fn(cc)(u32) -> u32)).will_execute(inj::fake!(func_type: fn(x: u32) -> u32, when: x == 1, returns: 0xFA, times: 0)),
@@ -228,13 +247,17 @@ fn numbers_in(s: &str) -> Vec<u64> {
 }
 
 /// thread 0 installs and, after all callers are done, lets the injector go; threads 1.. call.
-fn c06_scenario(n: usize, calls: &[usize], symmetric: bool) -> Scenario {
+fn c06_scenario(n: usize, calls: &[usize], symmetric: bool, arm: usize) -> Scenario {
     let k: usize = calls.iter().sum();
     let ncallers = calls.len();
     let mut bodies: Vec<Box<dyn FnOnce() + Send>> = Vec::new();
     bodies.push(Box::new(move || {
         let mut injector = InjectorPP::new();
-        install_times(&mut injector, n);
+        if arm == 0 {
+            install_times(&mut injector, n);
+        } else {
+            install_times_arm(&mut injector, arm, n);
+        }
         sched::event_set(0);
         for c in 0..ncallers {
             sched::join(1 + c);
@@ -265,7 +288,14 @@ fn c06_scenario(n: usize, calls: &[usize], symmetric: bool) -> Scenario {
         bodies.push(Box::new(move || {
             for _ in 0..c {
                 sched::point("h:before-call");
-                let r = catch_unwind(|| cc(1));
+                let r = catch_unwind(move || match arm {
+                    0 => cc(1),
+                    1 => unsafe { cc_unsafe(1) },
+                    _ => {
+                        cc_unit(1);
+                        0xFA
+                    }
+                });
                 match r {
                     Ok(0xFA) => {
                         ADMITTED.fetch_add(1, Ordering::SeqCst);
@@ -308,12 +338,15 @@ fn run_case(c: &Value) -> Value {
     let outcomes: std::cell::RefCell<std::collections::BTreeSet<String>> = Default::default();
     let first_viol: std::cell::RefCell<Option<Value>> = std::cell::RefCell::new(None);
     let states: std::cell::RefCell<std::collections::HashSet<u64>> = Default::default();
+    // determinism: a sample of the explored schedules is replayed afterwards and must be observed identically
+    let recheck: std::cell::RefCell<Vec<(Vec<usize>, String)>> = Default::default();
+    let judged = std::cell::Cell::new(0u64);
     let mk = || -> Scenario {
         if check == "c04" {
             c04_scenario(&spec_from_json(&c["spec"]))
         } else {
             let calls: Vec<usize> = c["calls"].as_array().unwrap().iter().map(|x| x.as_u64().unwrap() as usize).collect();
-            c06_scenario(c["n"].as_u64().unwrap() as usize, &calls, c["symmetric"].as_bool().unwrap_or(false))
+            c06_scenario(c["n"].as_u64().unwrap() as usize, &calls, c["symmetric"].as_bool().unwrap_or(false), c["arm"].as_u64().unwrap_or(0) as usize)
         }
     };
     let mut run = |prefix: &[usize]| -> sched::Execution {
@@ -348,6 +381,10 @@ fn run_case(c: &Value) -> Value {
         // state fingerprint: position in the trace is implicit; use (log so far, chosen prefix hash)
         let logtxt = LOG.lock().unwrap_or_else(|p| p.into_inner()).join(",");
         outcomes.borrow_mut().insert(logtxt.clone());
+        judged.set(judged.get() + 1);
+        if judged.get() % 97 == 1 && recheck.borrow().len() < 40 {
+            recheck.borrow_mut().push((schedule.to_vec(), logtxt.clone()));
+        }
         let mut h = 0xcbf29ce484222325u64;
         for (i, s) in ex.trace.iter().enumerate() {
             // a state = (who is where) approximated by (step index, enabled set, chosen)
@@ -385,6 +422,21 @@ fn run_case(c: &Value) -> Value {
         }
         total
     };
+    let mut nondet = false;
+    if first_viol.borrow().is_none() {
+        let samples: Vec<(Vec<usize>, String)> = recheck.borrow().clone();
+        for (schedule, want_log) in samples {
+            let ex = run(&schedule);
+            let got: Vec<usize> = ex.trace.iter().map(|s| s.chosen).collect();
+            let log_now = LOG.lock().unwrap_or_else(|p| p.into_inner()).join(",");
+            if got != schedule || log_now != want_log {
+                nondet = true;
+                *first_viol.borrow_mut() = Some(json!({"key": "scheduler-fatal", "what": "replaying an explored schedule gave a different execution (nondeterminism the scheduler does not own)", "schedule": schedule, "labels": []}));
+                break;
+            }
+        }
+    }
+    let _ = nondet;
     json!({
         "schedules": stats.schedules, "steps": stats.steps, "states": states.borrow().len(), "max_preemptions": stats.max_preemptions_used,
         "blocked_lock_schedules": stats.blocked_lock_schedules, "capped": stats.capped,
@@ -444,9 +496,9 @@ fn cases(check: &str, tier: &str) -> Vec<Value> {
         }
     } else {
         let thorough = tier == "thorough";
-        for n in 0..=if thorough { 4 } else { 2 } {
+        for n in 0..=if thorough { 3 } else { 2 } {
             for k in 0..=n + 2 {
-                for t in 1..=if thorough { 4usize } else { 3 } {
+                for t in 1..=3usize {
                     for calls in compositions(k, t) {
                         if calls.iter().any(|c| *c == 0) && t > 1 {
                             continue; // a caller without calls is a smaller T
@@ -454,7 +506,7 @@ fn cases(check: &str, tier: &str) -> Vec<Value> {
                         // every schedule for one or two callers; preemption-bounded beyond
                         let (bound, cap) = match t {
                             1 | 2 => (64, 200_000u64),
-                            3 => (if thorough { 64 } else { 2 }, if thorough { 400_000 } else { 8_000 }),
+                            3 => (if thorough { 4 } else { 2 }, if thorough { 60_000 } else { 8_000 }),
                             _ => (3, 200_000),
                         };
                         v.push(json!({"check": "c06", "n": n, "calls": calls, "symmetric": false, "bound": bound, "cap": cap}));
@@ -462,11 +514,17 @@ fn cases(check: &str, tier: &str) -> Vec<Value> {
                 }
             }
         }
+        // the same budget through two other arms of the macro (every schedule, two callers)
+        for arm in [1u64, 2] {
+            for (n, calls) in [(1u64, vec![1, 1]), (2, vec![1, 2]), (1, vec![2])] {
+                v.push(json!({"check": "c06", "n": n, "calls": calls, "symmetric": false, "arm": arm, "bound": 64, "cap": 100_000}));
+            }
+        }
         // many identical single-call threads (symmetry reduction)
         for t in [8usize, 16] {
             for n in [0usize, 1, 2, 4] {
                 if thorough || n == 1 {
-                    v.push(json!({"check": "c06", "n": n, "calls": vec![1; t], "symmetric": true, "bound": if thorough { 3 } else if t == 8 { 2 } else { 1 }, "cap": if thorough { 300_000 } else { 8_000 }}));
+                    v.push(json!({"check": "c06", "n": n, "calls": vec![1; t], "symmetric": true, "bound": if thorough { 2 } else if t == 8 { 2 } else { 1 }, "cap": if thorough { 60_000 } else { 8_000 }}));
                 }
             }
         }
